@@ -150,9 +150,12 @@ EWrite(m, e) ==
 
 ESinkFlush(m, e) ==
   LET k == m.sk[e.s]
-      nf == k.nf + 1 IN
-  [m EXCEPT !.sk[e.s].nf = nf,
-            !.sk[e.s].flushedTo = IF e.thr THEN k.flushedTo ELSE Len(k.written)]
+      nf == k.nf + 1
+      \* C17 (and C10 when a throwing flush is what made the backend keep the pointer): a destroyed sink is never used again
+      why == "a sink was flushed after it had been destroyed"
+      m1 == Check(Check(m, "ok17", k.alive, why), "ok10", k.alive, why) IN
+  [m1 EXCEPT !.sk[e.s].nf = nf,
+             !.sk[e.s].flushedTo = IF e.thr THEN k.flushedTo ELSE Len(k.written)]
 
 \* statements whose delivery the contract demands: accepted, not faulty, and not lost to a throwing write
 Deliverable(m, id, sname) ==
